@@ -725,6 +725,10 @@ func scenXfer(r *Run) {
 		const ws = "wrap"
 		t := r.S.Tape
 		r.S.Alias = map[string]string{"C01": "C12", "C09": "C12"}
+		if r.Spec.Prop == "C09" {
+			// the wire format across the wraps, decided for C09 itself
+			r.S.Alias = map[string]string{}
+		}
 		o.Listen = false
 		segs := int(o.BytesAB+o.BytesBA)/200 + 50
 		wrapX, wrapY = nearBoundary(t, ws, segs), nearBoundary(t, ws, segs)
